@@ -270,11 +270,16 @@ func VerifC05_MsgTextTruncation() {
 
 // VerifC05_QuickReplyTruncation: quick replies never exceed 64 characters
 // (text of 63..66 bytes with arbitrary bytes at the cut).
-// cover: msg-created, truncated, not-truncated
+// cover: msg-created, broadcast-created, truncated, not-truncated
 func VerifC05_QuickReplyTruncation() {
 	qr := verifLongText("qr", 63+zzverif.Choice("qr-excess", 4), 3)
 	sa := verifNewAssets()
-	verifOneNodeFlow(sa, actions.NewSendMsg("a2", "hi", nil, []string{qr}, false))
+	// the quick reply of a message to the contact, or of a broadcast to others
+	if zzverif.Choice("broadcast", 2) == 1 {
+		verifOneNodeFlow(sa, actions.NewSendBroadcast("a2", "hi", nil, []string{qr}, nil, []*flows.ContactReference{flows.NewContactReference("5d76d86b-3bb9-4d5a-b822-c9d86f5d8e4f", "Ann")}, "", nil, nil))
+	} else {
+		verifOneNodeFlow(sa, actions.NewSendMsg("a2", "hi", nil, []string{qr}, false))
+	}
 	eng := NewBuilder().Build()
 	_, sp, err := eng.NewSession(sa, verifManualTrigger(sa, verifContact(sa)))
 	zzverif.Assert(err == nil, "NewSession failed")
@@ -287,6 +292,14 @@ func VerifC05_QuickReplyTruncation() {
 					zzverif.Cover("truncated")
 				} else {
 					zzverif.Cover("not-truncated")
+				}
+			}
+		}
+		if bc, ok := e.(*events.BroadcastCreatedEvent); ok {
+			zzverif.Cover("broadcast-created")
+			for _, tr := range bc.Translations {
+				for _, q := range tr.QuickReplies {
+					zzverif.Assert(utf8.RuneCountInString(q) <= flows.MaxQuickReplyLength, "quick reply of a broadcast is longer than the limit")
 				}
 			}
 		}
